@@ -518,6 +518,11 @@ func (m *mesh) exploreSettle(r *xrun, o settleOpts) string {
 		if o.canFireNext {
 			opts = append(opts, "next-event")
 		}
+		if dbg := os.Getenv("VERIF_DBGOPTS"); dbg != "" {
+			f, _ := os.OpenFile(dbg, os.O_APPEND|os.O_CREATE|os.O_WRONLY, 0o644)
+			fmt.Fprintf(f, "%s | %q\n", o.ctx, opts)
+			f.Close()
+		}
 		if dbg := os.Getenv("VERIF_DBGPAIRS"); dbg != "" {
 			f, _ := os.OpenFile(dbg, os.O_APPEND|os.O_CREATE|os.O_WRONLY, 0o644)
 			for _, o := range opts {
